@@ -1,5 +1,86 @@
-(* C16 — placeholder until proofs/PolyDomainFacts.v lands. *)
-From Coq Require Import List. Import ListNotations.
-Require Import Py Sem Term Poly Tactics PolyDomain.
-Example C16_model_runs : poly_order (Some [2%nat]) = Some [2%nat].
-Proof. reflexivity. Qed.
+(* C16 — renaming variables is faithful substitution.  Interface bookkeeping from the T1 translation (IfaceFacts), term-level
+   renaming from model/Term.v (TermFacts.rename_sem), contract level through the constructor's re-simplification.
+   Statements only; proofs in proofs/PolyDomainFacts.v. *)
+From Coq Require Import List String Bool QArith Reals.
+Import ListNotations.
+Require Import Py ListsGen ConstGen AlgebraGen AlgebraSpec IfaceSpec Sem Term Poly Tactics PolyDomain PolySpec TermFacts PolyFacts TacticsFacts PolyDomainFacts EqFacts PolyKeepFacts.
+
+(* a behaviour satisfies the renamed assumptions (and, under them, guarantees) exactly when the correspondingly renamed behaviour satisfied the originals *)
+Theorem C16 :
+  forall O : oracle,
+       lp_spec 0 O ->
+       forall (c : pcontract O) (s u : var) (c' : pcontract O),
+       s <> u ->
+       wf c ->
+       Forall wft (c_a c) ->
+       Forall wft (c_g c) ->
+       poly_rename O c s u = inl c' ->
+       (forall rho : val, sat_list rho (c_a c') <-> sat_list (sigma s u rho) (c_a c)) /\
+       (forall rho : val, sat_list rho (c_a c') -> sat_list rho (c_g c') <-> sat_list (sigma s u rho) (c_g c)).
+Proof. exact @C16_poly. Qed.
+Print Assumptions C16.
+
+(* a list of mappings applied in order: composition of the substitutions *)
+Theorem C16_sequence :
+  forall O : oracle,
+       lp_spec 0 O ->
+       forall (c : pcontract O) (ms : list (var * var)) (c' : pcontract O),
+       Forall (fun m : var * var => fst m <> snd m) ms ->
+       wf c ->
+       Forall wft (c_a c) ->
+       Forall wft (c_g c) ->
+       poly_rename_variables O c ms = inl c' ->
+       (forall rho : val, sat_list rho (c_a c') <-> sat_list (sigmas ms rho) (c_a c)) /\
+       (forall rho : val, sat_list rho (c_a c') -> sat_list rho (c_g c') <-> sat_list (sigmas ms rho) (c_g c)).
+Proof. exact @C16_poly_variables. Qed.
+Print Assumptions C16_sequence.
+
+(* the interface lists are updated as prescribed *)
+Theorem C16_interface :
+  forall (O : oracle) (c : pcontract O) (s u : var) (c' : pcontract O),
+       wf c ->
+       poly_rename O c s u = inl c' ->
+       wf c' /\
+       rename_list_spec s u (c_inputvars c) (c_inputvars c') /\
+       rename_list_spec s u (c_outputvars c) (c_outputvars c').
+Proof. exact @C16_poly_iface. Qed.
+Print Assumptions C16_interface.
+
+(* renaming an absent variable changes nothing *)
+Theorem C16_absent :
+  forall O : oracle,
+       lp_spec 0 O ->
+       forall (c : pcontract O) (s u : var) (c' : pcontract O),
+       ~ In s (c_inputvars c) ->
+       ~ In s (c_outputvars c) ->
+       Forall wft (c_a c) ->
+       Forall wft (c_g c) ->
+       poly_rename O c s u = inl c' ->
+       c_inputvars c' = c_inputvars c /\
+       c_outputvars c' = c_outputvars c /\
+       c_a c' = c_a c /\
+       (forall rho : val, sat_list rho (c_a c) -> sat_list rho (c_g c') <-> sat_list rho (c_g c)).
+Proof. exact @C16_poly_absent. Qed.
+Print Assumptions C16_absent.
+
+(* a renaming that would make a variable both input and output raises IncompatibleArgs *)
+Theorem C16_clash :
+  forall (O : oracle) (c : pcontract O) (s u : var),
+       s <> u ->
+       In s (c_inputvars c) /\ In u (c_outputvars c) \/
+       In s (c_outputvars c) /\ ~ In s (c_inputvars c) /\ In u (c_inputvars c) ->
+       poly_rename O c s u = inr IncompatibleArgs.
+Proof. exact @C16_poly_clash. Qed.
+Print Assumptions C16_clash.
+
+(* term level: coefficients are added when the new name already occurs *)
+Theorem C16_term :
+  forall (t : pterm) (s u : var),
+       wft t ->
+       s <> u ->
+       forall rho : val,
+       sat rho (term_rename_variable t s u) <->
+       sat (fun v : var => if (v =? s)%string then rho u else rho v) t.
+Proof. exact @rename_sem. Qed.
+Print Assumptions C16_term.
+
